@@ -140,6 +140,30 @@ def run(ck, prog, tier, load):
     comp = [a for a in pp.live if pp.branch(a) and pp.branch(a)[0][0] == "discr" and (pp.branch(a)[0][2] or "").endswith("path::Component")]
     ck.ob("C16-b.components-rechecked", "parse_path", bool(comp) and all(pp.dominates(a, o) or o in pp.reach([a]) for a in comp for o in oks), pp, comp[0] if comp else None, "the built path is re-parsed with std and every component must be Component::Normal before Ok is returned")
 
+    # the pre-compressed lookup builds `<parent>/<file name>.gz|br|zst`: for the root itself (an empty request tail) that is a
+    # SIBLING of the served directory, so it may only be asked for a path known not to be a directory, or for a file below one
+    n_fc = 0
+    for fb in prog.find(r"actix_files::service::FilesService as actix_service::Service<.*>>::call"):
+        for cb in prog.with_closures(fb):
+            for bb, t in cb.calls(r"service::find_compressed$"):
+                n_fc += 1
+                P = cb.op_expr(t["args"][1], 8)
+                pl = base_local(cb, t["args"][1])
+                # (local tested, truth) for every dominating Path::is_dir test
+                gs = []
+                for g, lab, a in cb.guards(bb):
+                    if g[0] == "call" and rx(r"Path::is_dir$").search(g[1] or "") and isinstance(lab, bool) and g[3] is not None:
+                        gs.append((base_local(cb, cb.term(g[3])["args"][0]), lab))
+                not_dir = any(x is not None and x == pl and lab is False for x, lab in gs)
+                below_dir = False
+                for d in cb.defs().get(pl, []) if pl is not None else []:
+                    if d[0] == "call" and rx(r"Path::join$").search(cname(d[2])):
+                        parent = base_local(cb, d[2]["args"][0])
+                        below_dir = below_dir or any(x is not None and x == parent and lab is True for x, lab in gs)
+                ck.ob("C16-b.compressed-lookup-stays-inside", "FilesService::call|%s" % ("file" if not_dir else "index" if below_dir else "?"), not_dir or below_dir, cb, bb,
+                      "find_compressed(path) is called only for a path tested not to be a directory, or for a child of a tested directory (its candidate is a sibling of `path`): %s" % short(P, 4))
+    ck.anchor("C16-b", n_fc, 1, "calls of find_compressed in FilesService::call")
+
     # ---- (c) range arithmetic --------------------------------------------------------------
     ir = prog.one(r"^actix_files::named::NamedFile::into_response$")
     tainted = lambda e: any(isinstance(p, str) and (p.endswith("HttpRange.length") or p.endswith("HttpRange.start")) for x in walk(e) if x[0] == "place" for p in x[2])
@@ -188,6 +212,17 @@ def run(ck, prog, tier, load):
             ok = ok or (bool(trues) and bool(rp) and all(any(ir.dominates(r_, d[1]) for r_ in rp) for d in trues))
         ck.ob("C16-c.partial-only-when-ranged", "206", ok, ir, st["PARTIAL_CONTENT"], "206 is set only when a satisfiable range was parsed")
 
+    # the range parser is told the real length of the file: every clamp and the 416 decision depend on it
+    hp = prog.one(r"^actix_files::range::HttpRange::parse$")
+    inner = [(bb, t) for bb, t in hp.calls(r"http_range::HttpRange::parse$")]
+    ck.anchor("C16-c", len(inner), 1, "http_range::HttpRange::parse in actix_files::range::HttpRange::parse")
+    for bb, t in inner:
+        a = hp.op_expr(t["args"][1], 4)
+        ck.ob("C16-c.range-size-unaltered", "range::HttpRange::parse", a[0] == "arg", hp, bb, "the size given to the range parser is the caller's `size` itself (no clamp or offset): %s" % short(a, 3))
+    for bb, t in ir.calls(r"actix_files::range::HttpRange::parse$|range::HttpRange::parse$"):
+        a = ir.op_expr(t["args"][1], 6)
+        from_md = bool(e_calls(a, r"Metadata::len$")) or any(any(e_calls(ir.def_expr(d, 4), r"Metadata::len$") for d in ir.defs().get(r_[1], [])) for r_ in e_roots(a) if r_[0] in ("var", "phi"))
+        ck.ob("C16-c.range-size-is-file-length", "into_response", from_md and not e_bins(a), ir, bb, "NamedFile passes the file's metadata length to the range parser: %s" % short(a, 3))
     # RFC 7232 section 6: a failed If-Match / If-Unmodified-Since (412) wins over a satisfied If-None-Match / If-Modified-Since (304)
     if "PRECONDITION_FAILED" in st and "NOT_MODIFIED" in st:
         PF = set(locals_guarding(ir, st["PRECONDITION_FAILED"], True))
